@@ -18,7 +18,20 @@ PROP = {
                    "wrapped: driven by the case PRNG a client yields or sleeps before a transaction and is held after "
                    "its commit until another client's write has committed (delays only, never inside a transaction), so "
                    "that calls made of more than one transaction get other clients' transactions between them; the "
-                   "number of histories where that was observed is counted. Model-free clauses on every history: "
+                   "number of histories where that was observed is counted. A read-only transaction (kvdb View / read-only "
+                   "ExecTx) is such a boundary too: after it returns the client is mostly held (own PRNG table) until "
+                   "another client's write has committed, so a call that checks in a read-only transaction and writes in "
+                   "a later one meets the other client's write in between. A quarter of the histories is a race profile "
+                   "on ONE hash driven on the store API itself (no tower mutex): RegisterAttempt released together with "
+                   "the operation that flips its admissibility (SettleAttempt of the only other in-flight shard, Fail, "
+                   "FailAttempt of the other shard with an amount that only fits afterwards, DeletePayment(s) of an "
+                   "initiated payment, InitPayment of a failed one), amounts chosen so that the new shard is admissible "
+                   "before and inadmissible after (or the reverse), plus 0-3 further operations per client; another "
+                   "eighth of the remaining histories runs the general mix directly on the store. For direct store calls "
+                   "the MPPayment returned by RegisterAttempt / SettleAttempt / FailAttempt / Fail is part of the "
+                   "observed output and must be the model state right after the operation in the linearization. "
+                   "Model-free clauses on every history: once any call has returned a record reporting Succeeded, no "
+                   "call that starts later returns another status (histories without creation/deletion); "
                    "fetched records obey the amount bound and the status function; an attempt admitted and never "
                    "settled/failed keeps its hash reported in flight and InitPayment refused."),
     "level_note": ("Sampled, not exhaustive. Attempt ids are unique per payment hash in the core units (the SQL schema makes "
@@ -26,7 +39,16 @@ PROP = {
                    "Concurrent schedules are the Go runtime's (GOMAXPROCS=4, -race in thorough) perturbed by the "
                    "PRNG-drawn pauses at transaction boundaries; where inside a multi-transaction call another client "
                    "lands is not enumerated. The bulk delete's cross-hash atomicity and its returned count are not "
-                   "verdict-bearing in the concurrent unit (count: KV-vs-SQL in the sequential unit)."),
+                   "verdict-bearing in the concurrent unit (count: KV-vs-SQL in the sequential unit). Direct store slice: "
+                   "the documented caller contract is respected - PaymentControl.RegisterAttempt: 'Callers MUST "
+                   "serialize calls to RegisterAttempt for the same payment hash', so the harness holds a per-hash mutex "
+                   "around direct RegisterAttempt calls only (never two registrations of one hash at once); no other "
+                   "method pair is documented as needing caller serialisation (Fail: 'allows concurrent calls ... without "
+                   "synchronization'), so RegisterAttempt runs concurrently with SettleAttempt / FailAttempt / Fail / "
+                   "InitPayment / deletes of the same hash. Inside lnd every caller of these four methods goes through "
+                   "routing.ControlTower, whose per-hash mutex serialises them (only DeletePayment(s), "
+                   "DeleteFailedAttempts and fetches bypass it), so a register-vs-settle/fail race inside the store is "
+                   "reachable at the store API (paymentsdb.DB, the subject of the statement), not through the tower."),
     "design_ref": "DESIGN.md §3 C16",
     "rule": ("A sequence is non-trivial when at least one attempt was admitted, at least one call was refused and a "
              "terminal status (succeeded/failed) was reported; distinct = distinct sets of (operation, model outcome "
@@ -34,14 +56,19 @@ PROP = {
              "distinct = distinct (ops per hash, outcome multiset) signatures. The concurrent unit additionally "
              "requires a minimum number of histories in which a complete write transaction of another client was "
              "observed between two transactions of one call (interleaved_between_tx, per backend), of holds released "
-             "by another client's commit, and of histories containing the bulk delete overlapping a registration."),
+             "by another client's commit, of histories containing the bulk delete overlapping a registration, of "
+             "race-profile histories per backend whose registration and opposing operation overlapped in time, of "
+             "records returned by direct store calls that were checked, and of holds after a read-only transaction "
+             "released by another client's commit."),
     "assumptions": ["attempt ids are not shared between payment hashes (core units)",
                     "SQLite stands for the SQL backend (Postgres fixtures do not run offline)",
                     "a porcupine timeout (Unknown) makes that history inconclusive, it is counted, never a violation",
                     "a database-busy answer is a rolled-back call (no effect); for the two-step ControlTower.InitPayment "
                     "it is ambiguous and the history is skipped (counted)",
                     "the transaction interposer only delays (yield / sleep / hold until another client's commit, capped) "
-                    "outside transactions; it never fails or reorders a call"],
+                    "outside transactions; it never fails or reorders a call",
+                    "direct store calls keep the documented caller contract: RegisterAttempt calls of one hash are "
+                    "serialised by the harness; all other store methods may run concurrently on one hash"],
     "race_anchors": ["payments/db/payment.go", "payments/db/payment_status.go", "payments/db/kv_store.go",
                      "payments/db/sql_store.go", "routing/control_tower.go"],
     "eval_counter": "cases",
@@ -76,15 +103,23 @@ PROP = {
             "watchdog": {"quick": 600, "thorough": 5400},
             "floors": {"quick": {"histories": 1400, "lin_ok": 1300, "histories_with_overlap": 700,
                                  "eval_conc_invariants": 450, "eval_inflight_kept": 550, "eval_fetched_record": 650,
-                                 "histories_contend": 250, "histories_with_delall_kv": 230,
-                                 "histories_with_delall_sql": 240, "histories_delall_overlaps_reg": 320,
-                                 "interleaved_between_tx": 110, "interleaved_between_tx_kv": 50,
-                                 "interleaved_between_tx_sql": 50, "holds_released_by_commit": 1100},
+                                 "histories_contend": 200, "histories_with_delall_kv": 175,
+                                 "histories_with_delall_sql": 190, "histories_delall_overlaps_reg": 250,
+                                 "interleaved_between_tx": 75, "interleaved_between_tx_kv": 33,
+                                 "interleaved_between_tx_sql": 40, "holds_released_by_commit": 1100,
+                                 "histories_race_kv": 90, "histories_race_sql": 95,
+                                 "race_pair_overlapped_kv": 90, "race_pair_overlapped_sql": 88,
+                                 "race_kind_settle": 70, "race_kind_failpay": 55, "histories_direct": 260,
+                                 "eval_returned_record": 570, "eval_succeeded_absorbing": 100,
+                                 "holds_after_ro_released_by_commit": 320},
                        "thorough": {"histories": 20000, "lin_ok": 19000, "histories_with_overlap": 10000,
                                     "eval_inflight_kept": 8500, "histories_with_delall_kv": 3600,
                                     "histories_with_delall_sql": 3700, "histories_delall_overlaps_reg": 5000,
-                                    "interleaved_between_tx": 1500, "interleaved_between_tx_kv": 800,
-                                    "interleaved_between_tx_sql": 600, "holds_released_by_commit": 15000}},
+                                    "interleaved_between_tx": 1100, "interleaved_between_tx_kv": 500,
+                                    "interleaved_between_tx_sql": 550, "holds_released_by_commit": 15000,
+                                    "race_pair_overlapped_kv": 1300, "race_pair_overlapped_sql": 1300,
+                                    "eval_returned_record": 8000,
+                                    "holds_after_ro_released_by_commit": 4500}},
         },
     ],
 }
